@@ -338,7 +338,11 @@ def apply_real(G, op):
     elif op[0] == "add_node_int":
         G.add_node(int(op[1]))
     elif op[0] == "add_edge":
-        G.add_edge(op[1], op[2], op[3], op[4], 0)
+        # '+ +' links are added with an optional field (as links read from a file are), the others without
+        if (op[2], op[4]) == ("+", "+"):
+            G.add_edge(op[1], op[2], op[3], op[4], 0, tags=["x1:i:1"])
+        else:
+            G.add_edge(op[1], op[2], op[3], op[4], 0)
     else:
         G.remove_node(op[1])
 
